@@ -8,7 +8,7 @@ from vf import common
 ID = "C19"
 LEVEL = "exploration"
 RULE = (
-    "case = one font in {glyf_colr_0, glyf_colr_1, picosvg} of 2-3 glyphs x 1-3 copies of one prototype shape (polygon, curved "
+    "case = one font in {glyf_colr_0, glyf_colr_1, picosvg} of 2-6 glyphs x 1-3 copies of one prototype shape (polygon, curved "
     "blob, ellipse, ring) under isometries: EXACT tier (integer font-unit coordinates; translations, k*90 degree rotations, "
     "mirrors: only floating point noise) or ARBITRARY tier (any angle, any translation, either mirror axis), viewBox >= 24, "
     "tolerance default or larger.  Observed: the outline each copy is drawn from (PaintGlyph glyph / COLRv0 layer base glyph "
@@ -121,7 +121,7 @@ def gen_case(case):
     glyphs = []
     isos = []
     exact_paths = []
-    for g in range(r.randint(2, 3)):
+    for g in range(r.choice([2, 2, 3, 3, 4, 5, 6])):
         paths = ""
         for cpy in range(r.randint(1, 3)):
             if exact:
